@@ -19,7 +19,6 @@ import re
 from numbers import Number
 
 import networkx as nx
-import numpy as np
 from ruamel.yaml import YAML
 
 from pycel.excelformula import ExcelFormula
